@@ -93,6 +93,10 @@ pub enum Strategy {
     /// back with probability p/100 as long as some other thread can move, so that the windows
     /// "holds A, wants B" of several threads overlap (what a lock-order cycle needs).
     HoldBack(u8),
+    /// Check-then-act windows: a thread sitting at a named pause point is held back with
+    /// probability p/100 as long as another thread can move (it resumes when the others are done or
+    /// blocked), so that everything the others do lands inside the window the pause marks.
+    HoldAtPause(u8),
 }
 
 /// One observed nested acquisition: `tid` arrived at `want` while holding `held`.
@@ -700,6 +704,21 @@ impl Ctl {
                 if !free.is_empty() && free.len() < cands.len() && g.rng.below(100) < p as usize {
                     g.stats.held_back += 1;
                     free[g.rng.below(free.len())]
+                } else {
+                    cands[g.rng.below(cands.len())]
+                }
+            }
+            Strategy::HoldAtPause(p) => {
+                // somebody else sits at a named pause point: keep running the current thread (through
+                // its own pause points too) with probability p, so that the other stays frozen there
+                let at_pause = |g: &Inner, t: usize| matches!(&g.threads[t], ThState::AtPoint(Req::Yield(n)) if !n.is_empty() && *n != "release");
+                if let Some(l) = last
+                    && cands.contains(&l)
+                    && cands.iter().any(|c| *c != l && at_pause(g, *c))
+                    && g.rng.below(100) < p as usize
+                {
+                    g.stats.held_back += 1;
+                    l
                 } else {
                     cands[g.rng.below(cands.len())]
                 }
